@@ -127,6 +127,9 @@ class CarrierKit:
         raise ValueError(c)
 
 
+DATA_FIELDS = ("x", "y", "rho", "z", "lon", "lat", "p")     # Struct fields of the base jobs that travel through K.farray
+
+
 class Carrier(Pair):
     prop = "C15"
 
@@ -134,6 +137,30 @@ class Carrier(Pair):
         Pair.__init__(self, base)
         self.data, self.time, self.integer = data, time, integer
         self.name = f"carrier[data={data or 'ndarray'}, time={time or 'datetime64[ns]'}]: {base.name}"
+        if data == "float32" and not isinstance(base, c03.ValidRange):
+            # (valid_range_test compares in the data's own dtype by contract - its `dtype` parameter and "span of equal format" -
+            #  so a binary64 span that binary32 cannot hold is outside the claim, like a fractional span for integer data)
+            # the solver's boundary models are also run, scaled off grid G, through the real code: a binary32 array holds numbers
+            # that are exact in binary64 too, so both representations are the same logical series for ANY float32 content -
+            # whereas thresholds/spans stay Python floats that binary32 cannot hold.  Code that keeps computing in the narrow
+            # dtype is exact on G (and invisible there) but not off it.
+            self.offgrid = "narrow-dtype"
+            self.offgrid_oracle = base
+            self.offgrid_scales = ((1, 10), (1, 3))     # shrinking keeps every declared input range
+
+    def offgrid_prepare(self, Sc):
+        """the logical series of a float32 carrier: every data value rounded to binary32 (for both representations)"""
+        def r32(v):
+            if isinstance(v, float) and v == v:
+                return float(np.float32(v))
+            if isinstance(v, (list, tuple)):
+                return type(v)(r32(x) for x in v)
+            return v
+        out = Struct(**vars(Sc))
+        for name in DATA_FIELDS:
+            if getattr(out, name, None) is not None:
+                setattr(out, name, r32(getattr(out, name)))
+        return out
 
     def params(self):
         p = dict(self.a.params())
@@ -145,7 +172,7 @@ class Carrier(Pair):
         if hasattr(self.a, "valid_params"):
             V.assume(self.a.valid_params(S))
         if self.data in ("int64",):
-            for name in ("x", "rho", "z", "lon", "lat", "p"):
+            for name in DATA_FIELDS:
                 for v in getattr(S, name, []) or []:
                     if isinstance(v, SFloat):
                         V.assume(mk_not(v.nan), z3.IsInt(v.v))
@@ -157,7 +184,7 @@ class Carrier(Pair):
                     if isinstance(v, SFloat):
                         V.assume(mk_or(v.nan, z3.IsInt(v.v)))
         if self.data == "float32":
-            for name in ("x", "rho", "z", "lon", "lat", "p"):
+            for name in DATA_FIELDS:
                 for v in getattr(S, name, []) or []:
                     if isinstance(v, SFloat):
                         V.assume(v.v >= -1024, v.v <= 1024)
@@ -216,9 +243,6 @@ def jobs(tier):
     # spans as lists instead of tuples
     out.append(Carrier(c03.GrossRange(n, True, "list"), data="ndarray"))
     if tier == "thorough":
-        for base, _ in data_bases[:6]:
-            b2 = type(base).__new__(type(base))
-            b2.__dict__.update(base.__dict__)
         out.append(Carrier(c09.Spike(5, "average", True, True), data="masked"))
         out.append(Carrier(c10.RateOfChange(5), data="series", time="ser_utc"))
         out.append(Carrier(c13.Density(4, True, True), data="list_none"))
@@ -227,7 +251,8 @@ def jobs(tier):
 
 FUNCTIONS = ["ioos_qc/qartod.py:* (all eight tests)", "ioos_qc/argo.py:speed_test", "ioos_qc/argo.py:pressure_increasing_test",
              "ioos_qc/axds.py:valid_range_test", "ioos_qc/utils.py:mapdates"]
-OUTSIDE = ["valid_range_test: integer data with a fractional / None bound (span must be 'of equal format' to the data, per its docstring); "
+OUTSIDE = ["valid_range_test: float32 data with a span that is not exact in binary32 (same contract: comparisons are made in the data's "
+           "dtype)", "valid_range_test: integer data with a fractional / None bound (span must be 'of equal format' to the data, per its docstring); "
            "tz-aware datetimes as *data*", "the library conversions themselves (np.array(list), Series.to_numpy(), datetime64 unit casts, tz stripping, dask "
            "compute) are environment-model contracts; every path witness is replayed through the real carriers (incl. real dask, "
            "float32, pandas) which is where a wrong contract would surface",
